@@ -87,7 +87,11 @@ func c19Judge(c *Ctx, cs *Case) {
 		c19Strace(c, cs)
 		return
 	}
-	m := RunModel(cs.Src, cs.Stdin, false, 0)
+	budget := 0
+	if cs.X != nil && cs.X["model_steps"] != "" {
+		budget = 50000000
+	}
+	m := RunModel(cs.Src, cs.Stdin, false, budget)
 	v := cliJudge(c, cs, m)
 	if v == "" {
 		c.Nontrivial(cs.Src + "|" + cs.Stdin)
@@ -324,9 +328,24 @@ func c19Run(c *Ctx) {
 		Lines(Print("1\u09e8 + \u09e81"), Print("3.\u09e7\u09ea"), Var("\u09a6\u09be\u09ae", "\u09e7\u09e80"), Print("\u09a6\u09be\u09ae * 2")),
 		Lines(Var("t", "0"), For(Var("i", "0"), "i < 3", "i = i + 1", "{ t = t + i; }"), Print("t"), "/* block */ // line", Print(`"fin"`)),
 		Lines(Fun("f", "", ""), "f();", "{ }", ";", If(False(), Print("1")), Print("nil")),
+		// blocks whose only declarations are declaration lists, entered repeatedly and side by side
+		Lines(For(Var("i", "0"), "i < 3", "i = i + 1", "{ "+K["var"]+" a = i, b = i * 2; "+Print("a + b")+" }"), Var("n", "0"), While("n < 2", "{ "+K["var"]+" p = n, q; n = n + 1; "+Print("p")+" }"),
+			Fun("g", "x", " "+IfElse("x", "{ "+K["var"]+" u = 1, v = 2; "+Ret("u + v")+" }", "{ "+K["var"]+" u = 3, v = 4; "+Ret("u * v")+" }")+" "), Print("g(1) + g(0)"), Var("u", `"outer"`), "{ "+K["var"]+" u = 5, w = 6; "+Print("u + w")+" }", Print("u")),
 	} {
 		if c.Mine() {
 			c19Judge(c, &Case{Gen: "clean-programs", Src: src, Stdin: "a\n", X: map[string]string{"tail": "clean"}})
+		}
+	}
+	// recursion tens of thousands of calls deep (bounded): clean, and failing at the bottom
+	for _, depth := range []int{5000, 40000, 60000} {
+		D := fmt.Sprint(depth)
+		for _, src := range []string{
+			Lines(Fun("sum", "n", " "+If("n == 0", "{ "+Ret("0")+" }")+" "+Ret("n + sum(n - 1)")+" "), Print(`"start"`), Print("sum("+D+")"), Print(`"end"`)),
+			Lines(Fun("down", "n", " "+If("n == 0", "{ "+Ret("missing_name")+" }")+" "+Ret("down(n - 1)")+" "), Print(`"start"`), Print("down("+D+")"), Print(`"AFTER"`)),
+		} {
+			if c.Mine() {
+				c19Judge(c, &Case{Gen: "deep-recursion", Src: src, Stdin: "", X: map[string]string{"tail": "deep", "model_steps": "1"}})
+			}
 		}
 	}
 	// every runtime fault of C06's pool, at top level and inside a function: status 70, diagnostics on stderr only
@@ -385,7 +404,7 @@ func init() {
 		Run:         c19Run,
 		Judge:       c19Judge,
 		MustCount: func(c *Ctx) []string {
-			return []string{"argv:usage64", "argv:unreadable", "argv:runs", "argv:repl-empty", "class:clean", "class:runtime-error", "class:static-error", "input_calls:4", "hook_stdin_reads", "gen:input-corner-cases", "gen:text-endings", "gen:every-runtime-fault"}
+			return []string{"argv:usage64", "argv:unreadable", "argv:runs", "argv:repl-empty", "class:clean", "class:runtime-error", "class:static-error", "input_calls:4", "hook_stdin_reads", "gen:input-corner-cases", "gen:text-endings", "gen:every-runtime-fault", "gen:deep-recursion", "gen:clean-programs"}
 		},
 	})
 }
